@@ -834,7 +834,7 @@ func ParseFixedDomainTtl(ks []config.KeyableString) (map[string]int, error) {
 		if err != nil {
 			return nil, fmt.Errorf("failed to parse ttl: %v", err)
 		}
-		m[strings.TrimSpace(key)] = int(ttl)
+		m[strings.ToLower(strings.TrimSpace(key))] = int(ttl)
 	}
 	return m, nil
 }
